@@ -161,7 +161,10 @@ Section CodecProofs.
     destruct (Z.eqb_spec (Z.of_N (crc (firstn (Z.to_nat (lenZ s - 4)) s))) (rd32 (skipn (Z.to_nat (lenZ s - 4)) s))); [auto|discriminate].
   Qed.
 
-  Section Decode.
+End CodecProofs.
+
+Section Decode.
+  Variable crc : str -> N.
   Variable decompress : comp -> str -> option str.
 
   (* C19: CRC and size-bounded decompression before any row can be scanned *)
@@ -187,8 +190,31 @@ Section CodecProofs.
   (* the bytes decoded are a function of the compressed bytes and the metadata only *)
   Lemma decode_block_same b c c' d : c = c' -> decode_block crc decompress b c' = Some d -> decode_block crc decompress b c = Some d.
   Proof. intros ->. auto. Qed.
-  End Decode.
-End CodecProofs.
+
+  (* C19: with the metadata held elsewhere (MetaStore), whatever the file's bytes have become, a block
+     read either fails or returns exactly the rows it returned before -- provided the new bytes at
+     the block's extent are not a CRC collision of the old ones *)
+  Lemma read_rows_exact_or_error file file' b rows rows' :
+    b_has_hash b = true ->
+    read_rows crc decompress file b = Some rows -> read_rows crc decompress file' b = Some rows' ->
+    (forall c c', read_at file (rdo b) (rds b) = Some c -> read_at file' (rdo b) (rds b) = Some c' ->
+                  crc c' = crc c -> c' = c) ->
+    rows' = rows.
+  Proof.
+    intros Hh H1 H2 Hcol. unfold read_rows, read_block in *.
+    destruct ((rdo b <? 0) || (rds b <? 0)); [discriminate|].
+    destruct (read_at file (rdo b) (rds b)) as [c|] eqn:R1; [|discriminate].
+    destruct (read_at file' (rdo b) (rds b)) as [c'|] eqn:R2; [|discriminate].
+    destruct (decode_block crc decompress b c) as [d|] eqn:D1; [|discriminate].
+    destruct (decode_block crc decompress b c') as [d'|] eqn:D2; [|discriminate].
+    pose proof (decode_block_crc_gate b c d Hh D1) as G1.
+    pose proof (decode_block_crc_gate b c' d' Hh D2) as G2.
+    assert (c' = c) by (apply Hcol; auto; congruence). subst c'.
+    rewrite D1 in D2. inversion D2; subst d'.
+    destruct (scan d) as [rs ok]. destruct ok; [|discriminate]. congruence.
+  Qed.
+End Decode.
+
 
 (* ---- the chunked region reader ---- *)
 Definition chunk_ok (rs re : Z) (c : option chunk) : Prop :=
